@@ -297,4 +297,14 @@ theorem tp_accepted_no_duplicates (b : Bytes) (sentBy : Nat) (p : Params) (h : u
     ∃ st : LoopSt, hasDup st.ids = false ∧ st.readISCID = true ∧ (sentBy = perspectiveServer → st.readODCID = true) :=
   tp_unmarshal_ok b sentBy p h
 
+open Uquic.Model.Wire.TP in
+/-- totality of transport parameter parsing: the length guard of `readPreferredAddress` (its bound is
+    regenerated from the source) covers every fixed-offset read, so on EVERY byte string, from either
+    perspective and for session tickets, the parser returns parameters or an error and never indexes
+    beyond the declared length (the model's `panic` outcome is unreachable) -/
+theorem tp_parse_never_panics (b : Bytes) (sentBy : Nat) (fromTicket : Bool) :
+    preferredAddressFixedReads ≤ preferredAddressMinLen ∧
+    unmarshal b sentBy fromTicket ≠ .error .panic ∧ unmarshalFromSessionTicket b ≠ .error .panic :=
+  ⟨pa_guard_covers_reads, (tp_unmarshal_no_panic b sentBy fromTicket).1, (tp_unmarshal_no_panic b sentBy fromTicket).2⟩
+
 end Uquic.Props.C08
